@@ -15,7 +15,8 @@ CONFIG = dict(
           "hooks, enter context, leave context normally, leave context by exception} with contexts nested up "
           "to depth 3, bounded-exhaustive up to the tier's length plus seeded random histories of length 40; "
           "after *every* step all four entry points (pickle.load, pickle.loads, _pickle.load, _pickle.loads) "
-          "are probed with a flagged but harmless pickle (vp_sink.hit) and the identity of the four bindings "
+          "are probed with a flagged but harmless pickle (vp_sink.hit; also behind a header, behind bytes that are no opcode "
+          "and with trailing data) and the identity of the four bindings "
           "is recorded.  Oracle: an explicit lifecycle model with a stack of saved states - a path the model "
           "says is protected must raise and leave the sink log empty; after leaving a context the identity "
           "tuple and the behaviour tuple equal those recorded at entry; after remove with no context open the "
@@ -35,6 +36,8 @@ CONFIG = dict(
 OPS = ["arm", "ml", "ml+", "remove", "enter", "leave", "leave_exc"]
 FLAGGED = b"cvp_sink\nhit\n(S'probe'\ntR."
 ADDITION_PROBE = b"ccollections\nCounter\n)R."      # allowed exactly while the 'ml+' additions are in force
+HOSTILE = (FLAGGED + b"trailing", b"\x00" + FLAGGED, b"\n" + FLAGGED, b"\xff" + FLAGGED, b" " + FLAGGED,
+           b"\x00\x00" + FLAGGED)
 NAMES = ("pickle.load", "pickle.loads", "_pickle.load", "_pickle.loads")
 
 
@@ -127,6 +130,25 @@ def probe_all(U):
                 chain.append(x)
                 x = x.__cause__ or x.__context__
             out.append("add:blocked" if any(isinstance(c, U) for c in chain) else f"add:other:{type(e).__name__}")
+    # third probe: hostile deliveries of the flagged pickle (a byte that is no opcode in front of it, a stream
+    # positioned behind a header, trailing data); only "did the sink run" is recorded
+    for i, fn in enumerate(bindings()):
+        ran = []
+        for di, blob in enumerate(HOSTILE):
+            del vp_sink.LOG[:]
+            try:
+                if i % 2 == 0:
+                    st = io.BytesIO(b"HDR" + blob if di == 0 else blob)
+                    if di == 0:
+                        st.seek(3)
+                    fn(st)
+                else:
+                    fn(blob)
+            except BaseException:
+                pass
+            if vp_sink.LOG:
+                ran.append(di)
+        out.append("hostile-ran:" + ",".join(map(str, ran)) if ran else "hostile:none-ran")
     del vp_sink.LOG[:]
     return tuple(out)
 
@@ -191,13 +213,20 @@ def run_history(ctx, mods, hist):
             steps.append(op)
             agg.count("steps")
             beh = probe_all(U)
-            agg.count("probes", 8)
+            agg.count("probes", 8 + 4 * len(HOSTILE))
             agg.hist("behaviours", ",".join(beh))
             for i in range(4):
                 if model[i] in ("ml", "ml+") and beh[4 + i] != ("add:allowed" if model[i] == "ml+" else "add:blocked"):
                     agg.violation(f"wrong-additions-in-force:{NAMES[i]}",
                                   f"model says {NAMES[i]} runs the ML environment {'with' if model[i] == 'ml+' else 'without'} "
                                   f"additions, but the addition probe is {beh[4 + i]}",
+                                  dict(w, steps=list(steps), behaviour=beh, model=list(model)))
+                    return
+            for i in range(4):
+                if model[i] != "orig" and beh[8 + i] != "hostile:none-ran":
+                    agg.violation(f"unprotected-while-armed:{NAMES[i]}:hostile-delivery",
+                                  f"model says {NAMES[i]} is protected ({model[i]}) but a flagged pickle behind a "
+                                  f"non-opcode byte / header / with trailing data executed ({beh[8 + i]})",
                                   dict(w, steps=list(steps), behaviour=beh, model=list(model)))
                     return
             for i in range(4):
